@@ -880,6 +880,12 @@ impl Inner {
 
         trace!("accept: verified authorization");
 
+        // Verification hook: the connection is admitted (`on_connect` returned `Allow` and the
+        // client was told so) but not registered yet.
+        #[cfg(iroh_verif)]
+        crate::server::verif_pause::point("accept:admitted", request.connection_id().verif_raw())
+            .await;
+
         let io = RelayedStream {
             inner: io,
             key_cache: self.key_cache.clone(),
